@@ -360,6 +360,16 @@ def op2_bounded(seed, quick):
                                 sub = o2.rdop2mats(["MAT2", "mat1"])
                                 if sorted(sub) != ["MAT1", "MAT2"] or not all(np.array_equal(sub[k_], want[k_][-1]) for k_ in sub):
                                     prob.append("reading a named subset differs from filtering a full read")
+                                # name lists with a trailing-* wildcard and in any letter case: the result is the full read filtered by the documented matching rule
+                                allnames = sorted(want)
+                                for pats in (["mat*"], ["MAT*"], ["Mat1*"], ["m*", "zz*"], ["mat2", "MAT1*"], ["*"], ["x*"], ["mAt1"]):
+                                    try:
+                                        got_ = o2.rdop2mats(list(pats))
+                                    except Exception as ex:          # noqa: BLE001
+                                        prob.append("rdop2mats(%r) raises %r" % (pats, ex)); break
+                                    exp_ = [n_ for n_ in allnames if any((n_.upper().startswith(p_[:-1].upper()) if p_.endswith("*") else n_.upper() == p_.upper()) for p_ in pats)]
+                                    if sorted(got_) != exp_ or not all(np.array_equal(got_[k_], want[k_][-1]) for k_ in got_):
+                                        prob.append("rdop2mats(%r) returns %s, the full read filtered by these patterns is %s" % (pats, sorted(got_), exp_)); break
                                 # tables: positioned reads record by record; skipping leaves the reader at the next data block
                                 for idx, (nm, kind, val) in enumerate(content):
                                     if kind != "table":
